@@ -939,10 +939,48 @@ def _c15_17(ctx):
                 digests.add(ev.call("shamir:ShareSet.interpolate", [254, sd], self_obj=C))
             if len(digests) != 1:
                 return [ctx.bad(spec, "different choices of %d shares of a %d-of-%d split give different digest shares" % (k, k, n), fn, mod, key="split-count")]
+            # recovery inverts splitting and verifies the digest: the untouched shares give the secret back, a share with one byte changed is refused
+            sd = [(i, by[i]) for i in sorted(choices)[0]]
+            try:
+                back = ev.call("shamir:ShareSet.recover_secret", [list(sd)], self_obj=C)
+            except Raised as x:
+                return [ctx.bad("shamir:ShareSet.recover_secret", "the first %d shares of a %d-of-%d split are refused by recover_secret (%s)" % (k, k, n, x.name), fn, mod, key="recover-cells")]
+            if back != secret:
+                return [ctx.bad("shamir:ShareSet.recover_secret", "recover_secret of the first %d shares of a %d-of-%d split does not give the secret" % (k, k, n), fn, mod, key="recover-cells")]
+            for pos_ in (0, len(secret) - 1):
+                bad_sd = list(sd)
+                b_ = bytearray(bad_sd[-1][1])
+                b_[pos_] ^= 0x01
+                bad_sd[-1] = (bad_sd[-1][0], bytes(b_))
+                try:
+                    ev.call("shamir:ShareSet.recover_secret", [bad_sd], self_obj=C)
+                    return [ctx.bad("shamir:ShareSet.recover_secret", "a share of a %d-of-%d split with byte %d changed is accepted by recover_secret: the digest does not protect the secret" % (
+                        k, n, pos_), fn, mod, key="recover-cells")]
+                except Raised:
+                    pass
+            # SLIP39: the value at x = 254 is HMAC-SHA256(key = R, msg = secret)[:4] ‖ R with R the remaining random bytes
+            import hashlib as _hl
+            import hmac as _hm
+            dg = next(iter(digests))
+            if not isinstance(dg, bytes) or len(dg) != len(secret) or dg[:4] != _hm.new(dg[4:], secret, _hl.sha256).digest()[:4]:
+                return [ctx.bad(spec, "the value the shares of a %d-of-%d split carry at x = 254 is not HMAC-SHA256(R, secret)[:4] ‖ R: recovery cannot verify the secret" % (k, n),
+                                fn, mod, key="split-count")]
     except Undecided as u:
         return [ctx.err(spec, "split_secret not evaluable: %s" % u, fn, mod)]
     return [ctx.ok(spec, "%d (k, n) pairs: n shares with indexes 0..n-1; every tried choice of k of them recovers the secret" % len(pairs), fn, mod, key="split-count")]
 
+
+
+def _c15_6_deferring(ctx):
+    """SLIP39 constants read from the source; where split_secret places the secret and the digest share in another form, the split cells
+    (C15.17: the shares interpolate to the secret at 255 and to HMAC(R, secret)[:4] ‖ R at 254) decide"""
+    out = c15_6(ctx)
+    covered = [r for r in out if r.key in ("split-x", "digest-fn", "digest-layout", "recover-x")]
+    rl.defer(ctx, covered, lambda: c15_17(ctx), "decided by the split cells (C15.17: for every tried (k, n) the shares carry the secret at x = 255 and HMAC-SHA256(R, secret)[:4] ‖ R at "
+             "x = 254, recover_secret gives the secret back and refuses a changed share); the points / layout are not in the form this rule reads")
+    rl.defer(ctx, [r for r in out if r.key == "gf256"], lambda: c15_14(ctx), "decided by the GF(256) cells (C15.14: the tables _load() builds are the field's exp / log tables of generator 3 "
+             "modulo 0x11b); the table generation is not in the form this rule reads")
+    return out
 
 
 OBLIGATIONS = [
@@ -957,7 +995,7 @@ OBLIGATIONS = [
     ("C15.3", "GUARD", c15_3),
     ("C15.4", "GUARD", c15_4),
     ("C15.5", "TABLE", c15_5),
-    ("C15.6", "TABLE", c15_6),
+    ("C15.6", "TABLE", _c15_6_deferring),
     ("C15.7", "RANGE", c15_7),
     ("C15.8", "BITS layout", c15_8),
     ("C15.9", "MEMO", c15_9),
